@@ -6,10 +6,10 @@ HERE = os.path.dirname(os.path.dirname(os.path.abspath(__file__)))
 RELATED = {"C02": ["C02", "C03", "C19"], "C03": ["C03", "C02"], "C04": ["C04", "C06"], "C06": ["C06", "C04", "C02"], "C07": ["C07"],
            "C08": ["C08"], "C09": ["C09", "C12"], "C10": ["C10"], "C11": ["C11", "C12"], "C12": ["C12", "C11"], "C14": ["C14"],
            "C15": ["C15"], "C17": ["C17"], "C19": ["C19", "C02"]}
-for d in sorted(glob.glob("/tmp/benign/C*/OUT/*/patch.diff")) + sorted(glob.glob("/tmp/benign3/C*/OUT/*/patch.diff")):
+for d in sorted(glob.glob("/tmp/benign/C*/OUT/*/patch.diff")) + sorted(glob.glob("/tmp/benign3/C*/OUT/*/patch.diff")) + sorted(glob.glob("/tmp/benign4/C*/OUT/*/patch.diff")):
     parts = d.split("/")
     pid, k = parts[3], parts[5]
-    name = ("ba3-%s-%s" if parts[2] == "benign3" else "ba-%s-%s") % (pid, k)
+    name = {"benign3": "ba3-%s-%s", "benign4": "ba4-%s-%s"}.get(parts[2], "ba-%s-%s") % (pid, k)
     out = os.path.join(HERE, "mutants", name)
     os.makedirs(out, exist_ok=True)
     shutil.copy(d, os.path.join(out, "patch.diff"))
